@@ -184,7 +184,7 @@ func (e *Emulator) evalRegsFully(ex expr.Expr, s *Step) expr.Expr {
 // memory storage.
 func (e *Emulator) memValue(key expr.Key, addr model.Addr, w expr.Width) expr.Const {
 	if val, ok := e.State.Mems.Load(key, addr, w); ok {
-		return val.(expr.Const)
+		return constValue(val)
 	}
 
 	for _, intv := range e.State.Mems.Missing(key, addr, w).Intervals() {
@@ -208,7 +208,14 @@ func (e *Emulator) memValue(key expr.Key, addr model.Addr, w expr.Width) expr.Co
 			w, addr))
 	}
 
-	return val.(expr.Const)
+	return constValue(val)
+}
+
+// constValue evaluates value loaded from memory. The emulator stores only
+// constants, but a load combining several stored values (or a part of one) is
+// an expression composed of them which has to be folded first.
+func constValue(val expr.Expr) expr.Const {
+	return exprtransform.ConstFold(val).(expr.Const)
 }
 
 func (e *Emulator) evalMemoryFully(ex expr.Expr, s *Step) expr.Expr {
